@@ -30,7 +30,7 @@ def addRemove_Statement : Prop :=
     0 ≤ r.i → r.i ≤ Dec.P → 0 ≤ fS.i → fS.i ≤ Dec.P → 0 ≤ fB.i → fB.i ≤ Dec.P → R ≠ 0 → A ≠ 0 →
     calculatePoolUnits P R A n e fS fB r = .ok (some u) →
     calculateWithdrawalFromUnits u.poolUnits (R + n) (A + e) u.lpUnits u.lpUnits = .ok (n', e', left) →
-    addRemoveOK r R A n e n' e' = true
+    addRemoveOK r fS fB R A n e n' e' = true
 
 /-- full statement of clause 4 for liquidity messages with ratio shifting off (not proved yet;
     judged on every implementation message): an add never lowers the backing per unit -/
